@@ -320,7 +320,7 @@ InDomain(q) ==
   /\ q.rec \in SeqSet(RecPal)
   /\ \A v \in {q.x, q.y, q.z} : v \in CoordMin..CoordMax
   /\ q.occ \in 0..100 /\ q.b \in 0..99999
-  /\ q.serial \in 1..SerialMax /\ q.model \in 1..ModelMax
+  /\ q.serial \in 1..SerialMax /\ q.model \in 0..ModelMax
 
 \* the abstract atom as a row of a PDB / mmCIF frame
 AsRow(q, fmt) == [q EXCEPT !.charge = IF fmt = "pdb" THEN PdbCharge(q.charge) ELSE CifCharge(q.charge)]
